@@ -543,7 +543,8 @@ func (h *HasLabel) Process(ctx context.Context, man gdbi.Manager, in gdbi.InPipe
 				out <- t
 				continue
 			}
-			if contains(labels, t.GetCurrent().Label) {
+			// a traveler without a current element (null step) has no label
+			if cur := t.GetCurrent(); cur != nil && contains(labels, cur.Label) {
 				out <- t
 			}
 		}
@@ -599,7 +600,8 @@ func (h *HasID) Process(ctx context.Context, man gdbi.Manager, in gdbi.InPipe, o
 				out <- t
 				continue
 			}
-			if contains(ids, t.GetCurrentID()) {
+			// a traveler without a current element (null step) has no id
+			if !t.IsNull() && contains(ids, t.GetCurrentID()) {
 				out <- t
 			}
 		}
